@@ -21,6 +21,14 @@ Check_FW(r) ==
                  <<"refused", r.err>>,
                  <<"nothing_emitted", r.out = <<>> >> >>)
 
+\* C01 - frame.Writer.Write on a frame carrying a decoded message of the dialect: the writer encodes it
+Check_FWM(r, raw) ==
+  LET f == [r.f EXCEPT !.payload = Encode(FromGo(raw), r.vals, r.f.v = 2)] IN
+  Failed(<< <<"no_panic", ~r.panic>>,
+            <<"accepted", ~r.err>>,
+            <<"layout_with_encoded_message", r.out = Marshal(f)>>,
+            <<"one_transport_write_or_more_but_whole", Len(r.out) = MarshalLen(f)>> >>)
+
 \* C01 - frame.Reader.Read on exactly one well-formed frame (no key; id unknown to the dialect)
 ReadClauses(in, res, next) ==
   LET p == Parse(in) IN
